@@ -84,6 +84,11 @@ CHECKS = {
         note="Type shapes come from a finite family built with reflect; a named (non-embedded) first field of type ecs.Relation is not generated (ambiguous in the docs, DESIGN 4.11).",
         technique="stateful property-based testing (rapid) against a registry/entity model; read-back through every registered ID",
         ref="DESIGN.md section 5, C16"),
+    "C17": dict(
+        text="Generated pre-histories leave arbitrary free-list shapes; the dump (optionally passed through encoding/json) is loaded into a fresh or used-and-reset world of another capacity increment; a generated continuation of creations and removals is applied to source and loaded world; Alive answers for every handle, the handles issued during the continuation and the dumps must be identical; loading into a non-empty world must panic without effect; Entity JSON round trips are checked for arbitrary (id, generation).",
+        note="Continuations contain creations and single removals only, as the statement says; handles issued before the source world's last reset are not asked about (DESIGN 4.4).",
+        technique="stateful property-based testing (rapid): round trip (dump -> JSON -> load) + differential continuation on source and loaded world",
+        ref="DESIGN.md section 5, C17"),
     "C20": dict(
         text="Generated Add/Remove/Get/Has sequences over 4 static resource types through all three access styles and up to the limit of dynamic ones, interleaved with component registrations, entity operations, world locks and Reset, with illegal Add-present/Remove-absent injected; after every operation every registered resource is read through every accessor and compared with a map model (exact pointer identity, nil when absent, dense independent IDs).",
         note="Resource type registration under lock is not asserted to panic (DESIGN 4.14).",
